@@ -193,6 +193,24 @@ def run_shard(shard, rec):
                 continue
             check_code(low | hi, rc, known, rec, "quick", TPM_RC)
             rec.count("rechecked_after_history")
+    # the same codes arriving as already typed values (a code taken out of a decoded response and wrapped again, a sized
+    # integer): text and rows are those of the plain integer
+    from tpmstream.spec.structures.base_types import UINT32
+
+    for low in recheck:
+        c = low
+        plain = TPM_RC(c)
+        want = (str(plain), [(a._name, int(a._value), a._details) for a in plain.attributes()])
+        for label, make in (("TPM_RC(TPM_RC(c))", lambda: TPM_RC(TPM_RC(c))), ("TPM_RC(UINT32(c))", lambda: TPM_RC(UINT32(c)))):
+            try:
+                y = make()
+                got = (str(y), [(a._name, int(a._value), a._details) for a in y.attributes()])
+            except Exception as e:
+                rec.violation("route", f"raises:{label}", f"code {c:#010x} built as {label}: {type(e).__name__}: {e}", dict(code=c, route=label))
+                continue
+            rec.count("typed_routes_checked")
+            if got != want:
+                rec.violation("route", label, f"code {c:#010x} built as {label}: text {got[0]!r} / {len(got[1])} rows, built from the integer: {want[0]!r} / {len(want[1])} rows", dict(code=c, route=label))
     rec.sample(dict(code="0x000009a2", text=str(TPM_RC(0x9A2))))
     rec.sample(dict(code="0x000001c4", text=str(TPM_RC(0x1C4))))
 
